@@ -37,6 +37,7 @@ type world struct {
 	ids               [3]int32
 	ud                util.Uint160 // hash of the fourth instance (deployable by account 1)
 	udNEF, udManifest []byte
+	height            uint32 // height of the prepared chain
 }
 
 // buildWorld creates the prepared chain once; replicas replay its blocks.
@@ -110,6 +111,7 @@ func buildWorld(multi bool, pad int) (*world, error) {
 			return nil, err
 		}
 	}
+	w.height = n.Height()
 	for i := uint32(1); i <= n.Height(); i++ {
 		b, err := n.BC.GetBlock(n.BC.GetHeaderHash(i))
 		if err != nil {
